@@ -45,6 +45,27 @@ func build(tier string) []*vkit.Scenario {
 		return p
 	}
 
+	// ---- (d) concurrent writers over the engine-backed connection (first: the K=16 ones are the
+	// longest scenarios of the quick tier, the workers should start with them)
+	ntD := func(m map[string]int) bool { return m["messages_on_wire"] > 0 && m["interleave_opportunities"] > 0 }
+	for _, m := range ekit.Modes {
+		for _, k := range []int{1 << 20, 5} {
+			a := acfg{mode: m, exec: "go", writers: 2, f: 2, k: k, p: 1}
+			if k == 5 {
+				a.k = 16 // the 101 response and the frames go out in several partial writes
+			}
+			if thorough {
+				a.p = 2
+			}
+			add(a.name(), orderBody(a), a.p, ntD)
+			if k == 5 {
+				out[len(out)-1].Budget = 90 * time.Second
+				if thorough {
+					out[len(out)-1].Budget = 12 * time.Minute
+				}
+			}
+		}
+	}
 	// ---- (b) direct mode
 	ntWire := func(m map[string]int) bool { return m["messages_on_wire"] > 0 && m["interleave_opportunities"] > 0 }
 	for _, d := range []dcfg{
@@ -162,20 +183,6 @@ func build(tier string) []*vkit.Scenario {
 		}
 	}
 
-	// ---- (d) concurrent writers over the engine-backed connection
-	ntD := func(m map[string]int) bool { return m["messages_on_wire"] > 0 && m["interleave_opportunities"] > 0 }
-	for _, m := range ekit.Modes {
-		for _, k := range []int{1 << 20, 5} {
-			a := acfg{mode: m, exec: "go", writers: 2, f: 2, k: k, p: 1}
-			if k == 5 {
-				a.k = 16 // the 101 response and the frames go out in several partial writes
-			}
-			if thorough {
-				a.p = 2
-			}
-			add(a.name(), orderBody(a), a.p, ntD)
-		}
-	}
 	return out
 }
 
